@@ -133,6 +133,8 @@ def gen_case(rng, tier, index):
     wl["max_volume"] = rng.choice([950, 950, 200, 100, 1000])
     wt = gen.gen_worktable(rng, vclass=vclass if vclass != "dirty" else "cent", limits=rng.choice(["tight", "loose", "loose"]),
                            need_trough=rng.random() < 0.6, small=rng.random() < 0.85)
+    if rng.random() < 0.12:
+        wl["auto_split"] = False
     n_ops = rng.choice([10, 20, 40, 60, 100, 300 if tier == "thorough" else 80])
     return {"worklist": wl, "worktable": wt, "n_ops": n_ops, "opseed": rng.getrandbits(48), "profile": "ledger", "vclass": vclass}
 
